@@ -31,6 +31,28 @@ fn main() {
         println!("wrote {k} corpus files to {}", dir.display());
         return;
     }
+    if args[1] == "dict" {
+        // nvh dict <file>: libFuzzer dictionary with every keyword of the three formats
+        let mut lines: Vec<String> = vec![];
+        for fi in 0..3usize {
+            for k in nvh::fmts::e_keywords(fi) {
+                let mut e = String::new();
+                for b in k.bytes() {
+                    if (0x20..0x7f).contains(&b) && b != b'"' && b != b'\\' {
+                        e.push(b as char);
+                    } else {
+                        e.push_str(&format!("\\x{b:02x}"));
+                    }
+                }
+                lines.push(format!("\"{e}\""));
+            }
+        }
+        lines.sort();
+        lines.dedup();
+        std::fs::write(&args[2], lines.join("\n") + "\n").unwrap();
+        println!("wrote {} dictionary entries to {}", lines.len(), args[2]);
+        return;
+    }
     install_panic_hook();
     if args[1] == "fuzz-artifact" {
         // nvh fuzz-artifact <target> <file>: decode a libFuzzer artifact, confirm it with the
